@@ -3,16 +3,20 @@
     schedule; and at data level with the keys the code uses.
 
     The second sentence (storm-optimality and schedule independence when no
-    candidate ties) is NOT proved here: see DESIGN.md. It is tested on every run
-    by enumerating all schedules inside Coq on the generated cases
-    ([all_outcomes]), which is a test, not a theorem.
+    candidate ties) is proved in Proofs/OptimalSpec.v (McVitie-Wilson: the
+    invariant "no storm has been turned down by a rise it holds in some stable
+    matching" is kept by every step under every schedule) and stated below,
+    generic and at data level.  On the storm side the proposal list itself is
+    the (strict) order, so only ties on the rise side have to be excluded.  It is
+    additionally tested on every run by enumerating all schedules inside Coq on
+    the generated cases ([all_outcomes]).
 
     The duration key of the code counts head *samples* of the rise where the
     recorded duration counts *steps*: the theorem below is about the code's key
     [dur_key]; for the recorded-duration reading the statement is refuted by a
     witness in Refuted/C02.v (known finding C02/duration-off-by-one). *)
 From Spowtd Require Import Model.Matching Proofs.RunsSpec Proofs.MatchingSpec
-  Proofs.MatchStormsSpec Proofs.ClassifySpec.
+  Proofs.MatchStormsSpec Proofs.ClassifySpec Proofs.OptimalSpec Proofs.MatchStormsOptimal.
 
 (** Generic: if storm [s] is unmatched, or rise [j] has a strictly smaller key
     than its partner (its proposal order being sorted by that key), then [j]
@@ -61,9 +65,64 @@ Theorem C02_no_blocking_pair_data : forall heavy jumpf sched r sp rp,
 Proof. exact ms_stable. Qed.
 Print Assumptions C02_no_blocking_pair_data.
 
+(** Second sentence, generic.  [stable pref cands mu]: mu is a matching within
+    the candidate edges with no blocking pair (storms rank rises by position in
+    their proposal list, rises rank storms by [pref]).  When no rise values two
+    of its candidate storms equally, (a) the recorded matching is stable in that
+    sense, (b) every storm gets in it a rise at least as good (equal, or earlier
+    in its list) as in ANY stable matching, (c) the result is the same whatever
+    the order in which the storms are taken from the work set. *)
+Theorem C02_storm_optimal_generic : forall pref cands, NoDup (map fst cands) ->
+  (forall s, NoDup (O cands s)) ->
+  (forall j s s', In j (O cands s) -> In j (O cands s') -> s <> s' -> pref j s <> pref j s') ->
+  forall sched m, stable_matching pref cands sched = Ok m ->
+    (exists st, m = mt st /\ stable pref cands (final_matching st)) /\
+    (forall mu s j, stable pref cands mu -> mr mu j = Some s ->
+       exists j', alookup j' m = Some s /\ (j' = j \/ before (O cands s) j' j)).
+Proof.
+  intros pref cands Hk Hl Hs sched m H. split.
+  - eapply result_stable; eassumption.
+  - intros mu s j Hmu Hj. eapply result_storm_optimal; eassumption.
+Qed.
+Print Assumptions C02_storm_optimal_generic.
+
+Theorem C02_schedule_independent_generic : forall pref cands, NoDup (map fst cands) ->
+  (forall s, NoDup (O cands s)) ->
+  (forall j s s', In j (O cands s) -> In j (O cands s') -> s <> s' -> pref j s <> pref j s') ->
+  forall sched1 sched2 m1 m2,
+    stable_matching pref cands sched1 = Ok m1 -> stable_matching pref cands sched2 = Ok m2 ->
+    forall j s, alookup j m1 = Some s <-> alookup j m2 = Some s.
+Proof. exact schedule_independent. Qed.
+Print Assumptions C02_schedule_independent_generic.
+
+(** Data level: for any flag vectors in which no rise is equally close in start
+    to two storms overlapping it, the recorded set of pairs does not depend on
+    the order in which Python's set hands out the storms. *)
+Theorem C02_schedule_independent_data : forall heavy jumpf, no_rise_ties heavy jumpf ->
+  forall sched1 sched2 r1 r2,
+    match_storms_flags heavy jumpf sched1 = Ok r1 -> match_storms_flags heavy jumpf sched2 = Ok r2 ->
+    forall pr, In pr r1 <-> In pr r2.
+Proof. exact ms_schedule_independent. Qed.
+Print Assumptions C02_schedule_independent_data.
+
 (** Non-vacuity: storm 0 is displaced from rise 3 by storm 1 and settles for
     rise 5; the outcome is the same under every schedule. *)
 Example C02_example :
   let pref := fun j s => match j, s with 3, 0 => (-3)%Z | 3, 1 => (-2)%Z | _, _ => (-5)%Z end in
   all_outcomes pref [(0, [3; 5]); (1, [3])] = [Ok [(3, 1); (5, 0)]; Ok [(3, 1); (5, 0)]].
 Proof. vm_compute. reflexivity. Qed.
+
+(** Non-vacuity of the hypotheses of the second sentence on the same example:
+    proposal lists without repetition, rise 3 values storms 0 and 1 differently. *)
+Example C02_example_no_ties :
+  let pref := fun j s => match j, s with 3, 0 => (-3)%Z | 3, 1 => (-2)%Z | _, _ => (-5)%Z end in
+  let cands := [(0, [3; 5]); (1, [3])] in
+  NoDup (map fst cands) /\ (forall s, NoDup (O cands s)) /\
+  (forall j s s', In j (O cands s) -> In j (O cands s') -> s <> s' -> pref j s <> pref j s').
+Proof.
+  cbv zeta. split; [|split].
+  - repeat constructor; simpl; intuition discriminate.
+  - intros [|[|s]]; vm_compute; repeat constructor; simpl; intuition discriminate.
+  - intros j [|[|s]] [|[|s']]; vm_compute; intros H1 H2 Hne; try tauto; try congruence;
+      repeat match goal with H : _ \/ _ |- _ => destruct H end; subst; try tauto; try discriminate; try congruence.
+Qed.
